@@ -356,6 +356,12 @@ def history(rng, version, length, profile):
             if idx is not None:
                 bad = rng.choice(["", "0", "zz", blk(0)[:-1], blk(0) + "0", blk(0)[:8], "g" * 12])
                 st[idx + 1:idx + 1] = [["in", f"{n};255;4;0;2;{bad}"], ["in", f"{n};255;4;0;0;{cfgp}"]]
+        if rng.random() < 0.35:
+            # in the middle of the session the controller calls update_fw with a FILE that carries no firmware, for the same
+            # (type, version), naming this node, the other node or an unpresented one: nothing may change
+            pos = rng.randrange(4, len(st) + 1)
+            st[pos:pos] = [["fw", rng.choice([n, m, [n, m], 9]), ft, fv, "FILE:" + rng.choice(["eof-only", "address-only", "blank", "empty", "missing"])],
+                           ["in", f"{rng.choice([n, m])};1;1;0;2;1"], ["in", f"{m};255;4;0;0;{cfgp}"], ["in", f"{n};255;4;0;2;{blk(0)}"]]
         if rng.random() < 0.5:
             # the node restarts without ever asking for the firmware; the controller schedules the same update again
             extra = [["fw", [n], ft, fv, img if rng.random() < 0.3 else None], ["in", f"{n};255;0;0;17;{version}"],
@@ -377,7 +383,10 @@ def history(rng, version, length, profile):
                 ft, fv = rng.choice([0, 1, 2]), rng.choice([0, 1])
                 if profile.get("fwrange") and rng.random() < 0.3:
                     ft = rng.choice([-1, 65536, 70000, 2**32, "x", "7"])
-                st.append(["fw", rng.choice([1, 2, [1, 2], 9, [3, 9]]), ft, fv, fw_image(rng) if rng.random() < 0.6 else None])
+                img = fw_image(rng) if rng.random() < 0.6 else None
+                if rng.random() < 0.12:
+                    img = "FILE:" + rng.choice(["eof-only", "address-only", "blank", "empty", "missing"])
+                st.append(["fw", rng.choice([1, 2, [1, 2], 9, [3, 9]]), ft, fv, img])
             elif m < 0.92:
                 st.append(["metric", rng.random() < 0.5])
             elif profile.get("cbraise"):
